@@ -33,7 +33,7 @@ ASSUMPTIONS = [
     "between a failed init and the next attempt, and the immediate attempt after a connection ended, are exact",
     "terminal / non-terminal is decided by the production classifier DataError::is_terminal (InvalidSequence is terminal, "
     "Socket is not); a scripted connection that is silent for ever is represented by the exhausted script (init pends)",
-    "runs of consecutive init failures in the random driver are at most 10 long (closed form inside TLC's 32-bit integers)",
+    "runs of consecutive init failures in the random driver are mostly at most 10 long; one script in eight has a run of 60-80 (the law is evaluated with saturation, inside TLC's 32-bit integers)",
     "merge: which side a poll takes when both have items, and whether a poll returns an item of the other side or the end "
     "once one input has ended, is left open (DESIGN 5.4); a send after the merged stream ended may be refused",
 ]
